@@ -38,10 +38,12 @@ def messageOf (j : Json) : Message :=
 
 def methodOf (j : Json) : Method :=
   { name := getStr j "name", input := getStr j "input", output := getStr j "output",
-    hasConfig := getBool j "has_config", path := getStr j "path", verbNum := getNat j "verb_num" }
+    hasConfig := getBool j "has_config", path := getStr j "path", verbNum := getNat j "verb_num",
+    headers := getStrList j "headers" }
 
 def serviceOf (j : Json) : Service :=
-  { name := getStr j "name", base := getStr j "base", methods := (getArr j "methods").map methodOf }
+  { name := getStr j "name", base := getStr j "base", methods := (getArr j "methods").map methodOf,
+    headers := getStrList j "headers" }
 
 def fileOf (j : Json) : File :=
   { name := getStr j "name", generate := getBool j "generate", goPkg := getStr j "go_pkg",
